@@ -6,10 +6,12 @@ pub mod c07;
 pub mod c08;
 pub mod c09;
 pub mod c10;
+pub mod c11;
 pub mod c12;
 pub mod c13;
 pub mod c14;
 pub mod c16;
+pub mod c17;
 pub mod c18;
 
 use crate::ctx::Ctx;
@@ -23,10 +25,12 @@ pub fn run(ctx: &mut Ctx) -> bool {
         "C08" => c08::run(ctx),
         "C09" => c09::run(ctx),
         "C10" => c10::run(ctx),
+        "C11" => c11::run(ctx),
         "C12" => c12::run(ctx),
         "C13" => c13::run(ctx),
         "C14" => c14::run(ctx),
         "C16" => c16::run(ctx),
+        "C17" => c17::run(ctx),
         "C18" => c18::run(ctx),
         _ => return false,
     }
